@@ -1,6 +1,222 @@
-//! C13 harness commands (stub).
-use std::io::Write;
+//! C13 — process-level determinism.  `hx c13 [okane-binary]`
+//!
+//! One case per input line: `<id> <n> <timeout_ms> <cwd> <arg> <arg> ...` (all percent-encoded atoms).
+//! The REAL `okane` binary is started `n` times as a fresh process (fresh `RandomState` each time) in `cwd`
+//! with the given arguments; stdout, stderr and the exit status of every run are compared byte for byte with
+//! the first run.  One record per case:
+//!
+//! `<id> same=1 n=<n> st=<status> out=<enc stdout> err=<enc stderr>`
+//! `<id> same=0 n=<n> i=<k> distinct=<d> st_a=.. out_a=.. err_a=.. st_b=.. out_b=.. err_b=..`
+//!     (run 0 and the first run `k` that differs from it; `d` = number of distinct behaviours among the n runs)
+//! `<id> bad=<reason>` when the case line cannot be used (never silently dropped).
+//!
+//! Status is `exit:<code>`, `signal:<n>` or `timeout`.  The property is byte identity; the single normalisation is
+//! the wall-clock timestamp that env_logger puts in front of a log line on stderr
+//! (`[2026-09-29T01:36:17Z ERROR ...` -> `[<ts> ERROR ...`): a log line is not the run's error text, and its
+//! clock reading is not an input of the command.  Text and order of the log lines are compared.
+use std::io::{BufRead, Read, Write};
+use std::process::{Command, Stdio};
+use std::time::{Duration, Instant};
 
-pub fn run(_args: &[String], _out: &mut dyn Write) -> i32 {
+use crate::sx;
+
+#[derive(PartialEq, Eq, Clone)]
+struct Obs {
+    status: String,
+    out: Vec<u8>,
+    err: Vec<u8>,
+}
+
+fn run_once(bin: &str, cwd: &str, args: &[String], timeout: Duration) -> Result<Obs, String> {
+    let mut child = Command::new(bin)
+        .args(args)
+        .current_dir(cwd)
+        .env_clear()
+        .env("RUST_BACKTRACE", "0")
+        .env("TZ", "UTC")
+        .env("LANG", "C")
+        .stdin(Stdio::null())
+        .stdout(Stdio::piped())
+        .stderr(Stdio::piped())
+        .spawn()
+        .map_err(|e| format!("spawn:{}", e))?;
+    let mut so = child.stdout.take().unwrap();
+    let mut se = child.stderr.take().unwrap();
+    let t_out = std::thread::spawn(move || {
+        let mut v = Vec::new();
+        let _ = so.read_to_end(&mut v);
+        v
+    });
+    let t_err = std::thread::spawn(move || {
+        let mut v = Vec::new();
+        let _ = se.read_to_end(&mut v);
+        v
+    });
+    let t0 = Instant::now();
+    let mut nap = Duration::from_micros(200);
+    let status = loop {
+        match child.try_wait() {
+            Ok(Some(st)) => {
+                #[cfg(unix)]
+                {
+                    use std::os::unix::process::ExitStatusExt;
+                    if let Some(sig) = st.signal() {
+                        break format!("signal:{}", sig);
+                    }
+                }
+                break format!("exit:{}", st.code().unwrap_or(-1));
+            }
+            Ok(None) => {
+                if t0.elapsed() > timeout {
+                    let _ = child.kill();
+                    let _ = child.wait();
+                    break "timeout".to_string();
+                }
+                std::thread::sleep(nap);
+                if nap < Duration::from_millis(5) {
+                    nap *= 2;
+                }
+            }
+            Err(e) => return Err(format!("wait:{}", e)),
+        }
+    };
+    let out = t_out.join().unwrap_or_default();
+    let err = mask_log_timestamps(t_err.join().unwrap_or_default());
+    Ok(Obs { status, out, err })
+}
+
+/// masks `[YYYY-MM-DDTHH:MM:SSZ ` at the start of a line.
+fn mask_log_timestamps(err: Vec<u8>) -> Vec<u8> {
+    fn is_ts(b: &[u8]) -> bool {
+        // [dddd-dd-ddTdd:dd:ddZ<space>
+        const PAT: &[u8] = b"[dddd-dd-ddTdd:dd:ddZ ";
+        b.len() >= PAT.len()
+            && PAT.iter().zip(b.iter()).all(|(p, c)| if *p == b'd' { c.is_ascii_digit() } else { p == c })
+    }
+    let mut out = Vec::with_capacity(err.len());
+    let mut i = 0;
+    let mut bol = true;
+    while i < err.len() {
+        if bol && is_ts(&err[i..]) {
+            out.extend_from_slice(b"[<ts> ");
+            i += 22;
+            bol = false;
+            continue;
+        }
+        bol = err[i] == b'\n';
+        out.push(err[i]);
+        i += 1;
+    }
+    out
+}
+
+fn default_bin() -> String {
+    if let Ok(b) = std::env::var("OKANE_BIN") {
+        return b;
+    }
+    // the okane binary is built into the same target directory as hx
+    if let Ok(me) = std::env::current_exe() {
+        if let Some(dir) = me.parent() {
+            let p = dir.join("okane");
+            if p.exists() {
+                return p.to_string_lossy().into_owned();
+            }
+        }
+    }
+    "/verif/work/target/debug/okane".to_string()
+}
+
+pub fn run(args: &[String], out: &mut dyn Write) -> i32 {
+    let bin = args.first().cloned().unwrap_or_else(default_bin);
+    let stdin = std::io::stdin();
+    for line in stdin.lock().lines() {
+        let line = match line {
+            Ok(l) => l,
+            Err(_) => break,
+        };
+        let words: Vec<&str> = line.split(' ').filter(|w| !w.is_empty()).collect();
+        if words.is_empty() {
+            continue;
+        }
+        let id = words[0];
+        if words.len() < 5 {
+            let _ = writeln!(out, "{} bad=short-line", id);
+            continue;
+        }
+        let n: usize = words[1].parse().unwrap_or(0);
+        let timeout_ms: u64 = words[2].parse().unwrap_or(10_000);
+        let cwd = match sx::dec(words[3]) {
+            Some(c) => c,
+            None => {
+                let _ = writeln!(out, "{} bad=cwd-encoding", id);
+                continue;
+            }
+        };
+        let mut cargs: Vec<String> = Vec::new();
+        let mut ok = true;
+        for w in &words[4..] {
+            match sx::dec(w) {
+                Some(a) => cargs.push(a),
+                None => ok = false,
+            }
+        }
+        if !ok || n < 2 {
+            let _ = writeln!(out, "{} bad=args", id);
+            continue;
+        }
+        let mut runs: Vec<Obs> = Vec::with_capacity(n);
+        let mut bad: Option<String> = None;
+        for _ in 0..n {
+            match run_once(&bin, &cwd, &cargs, Duration::from_millis(timeout_ms)) {
+                Ok(o) => runs.push(o),
+                Err(e) => {
+                    bad = Some(e);
+                    break;
+                }
+            }
+        }
+        if let Some(e) = bad {
+            let _ = writeln!(out, "{} bad={}", id, sx::enc(&e));
+            continue;
+        }
+        let first = &runs[0];
+        let k = runs.iter().position(|r| r != first);
+        match k {
+            None => {
+                let _ = writeln!(
+                    out,
+                    "{} same=1 n={} st={} out={} err={}",
+                    id,
+                    n,
+                    first.status,
+                    sx::enc_bytes(&first.out),
+                    sx::enc_bytes(&first.err)
+                );
+            }
+            Some(k) => {
+                let mut distinct: Vec<&Obs> = Vec::new();
+                for r in &runs {
+                    if !distinct.iter().any(|d| *d == r) {
+                        distinct.push(r);
+                    }
+                }
+                let b = &runs[k];
+                let _ = writeln!(
+                    out,
+                    "{} same=0 n={} i={} distinct={} st_a={} out_a={} err_a={} st_b={} out_b={} err_b={}",
+                    id,
+                    n,
+                    k,
+                    distinct.len(),
+                    first.status,
+                    sx::enc_bytes(&first.out),
+                    sx::enc_bytes(&first.err),
+                    b.status,
+                    sx::enc_bytes(&b.out),
+                    sx::enc_bytes(&b.err)
+                );
+            }
+        }
+    }
     0
 }
